@@ -43,6 +43,18 @@ def stress_jobs(rng, n):
     return jobs
 
 
+def coldstart_classes(rng):
+    txt = lambda n, al=b"abcdefgh XYZ": [rng.choice(al) for _ in range(n)]
+    return [
+        ("aztec-wordsizes", [dict(sym="aztec", content=txt(10), p=[23, L]) for L in (-1, 1, 4, 9, 12, 22, 23, 27)]),      # 6-, 8-, 10- and 12-bit codewords (GF(64)..GF(4096))
+        ("aztec-auto-large", [dict(sym="aztec", content=txt(n), p=[33, 0]) for n in (300, 700, 1500)]),
+        ("dm-sizes", [dict(sym="dm", content=list(C02.recipe(rng, 1, n)), p=[]) for n in (3, 44, 204, 456, 1050, 1558)]),  # single-block .. ten-block symbols
+        ("qr-versions", [dict(sym="qr", content=list(C01.filler(rng, 4, C01.cap(v, lv, 4) - 1, 1)), p=[lv, 3]) for (v, lv) in ((1, 0), (7, 1), (14, 2), (27, 3), (40, 0))]),
+        ("pdf-levels", [dict(sym="pdf", content=txt(40 + 10 * lv, b"abc XYZ 0123456789;\x80"), p=[lv]) for lv in range(9)]),
+        ("one-dimensional", [dict(sym=sym, content=onedim.U(c), p=list(p)) for (sym, c, p) in gen.SAMPLES[4:]]),
+    ]
+
+
 def run_stress(chk, binary, jobs, g, procs, rounds, seedv, name):
     jp = os.path.join(chk.work, name + ".jobs")
     ep = os.path.join(chk.work, name + ".events")
@@ -99,6 +111,21 @@ def run(tier):
                 e["hist"] = len(traces)
             evs.insert(0, dict(op="config", g=g, gomaxprocs=procs, hist=len(traces)))
             traces.append((("stress g=%d GOMAXPROCS=%d" % (g, procs)), jobs, evs, g, procs))
+            stuck = stuck or any(e["op"] == "deadlock" for e in evs)
+            total += sum(1 for e in evs if e["op"] == "cencode")
+    # (a'') cold-start classes: lazily initialised package state (tables, fields, caches) is first touched by whichever call needs it, so each class
+    # of symbols gets fresh processes in which all goroutines make exactly those calls as the very first calls of the process
+    for cname, cjobs in coldstart_classes(rng):
+        for k, j in enumerate(cjobs):
+            j["key"] = k + 1
+        for (g, procs) in ([(16, 8)] if quick else [(16, 8), (4, 2), (64, 16)]):
+            if stuck:
+                break
+            evs, _ = run_stress(chk, binary, cjobs, g, procs, 1, vlib.seed() * 131 + g, "cold_" + cname)
+            for e in evs:
+                e["hist"] = len(traces)
+            evs.insert(0, dict(op="config", g=g, gomaxprocs=procs, hist=len(traces)))
+            traces.append((("cold start %s g=%d GOMAXPROCS=%d" % (cname, g, procs)), cjobs, evs, g, procs))
             stuck = stuck or any(e["op"] == "deadlock" for e in evs)
             total += sum(1 for e in evs if e["op"] == "cencode")
     # (a') pipeline sweep: every QR (version <= 10 / 40) x level x mode filled to capacity and to capacity - 1, sequentially in one process:
